@@ -397,6 +397,9 @@ func TestC09(t *testing.T) {
 			r.Violation(key, msg, c)
 		}
 	}
+	if r.Lane == 0 {
+		quicLanes(r, "hostile")
+	}
 	// known-finding lane: the parser dependency loops once per declared unit
 	if r.Lane == 0 {
 		rng := r.CaseRand(99, 0)
